@@ -129,6 +129,7 @@ type AxiomDecl struct {
 	Name string
 	E    Expr
 	Src  string
+	Pkg  string // package the declaration belongs to ("" = global, std specs)
 }
 
 type SpecSet struct {
@@ -145,6 +146,8 @@ type SpecSet struct {
 	Folds     []FoldDecl
 	RunLemmas []RunLemma
 	FoldLinks [][2]string
+	Lemmas    []AxiomDecl // proved once (obligation on the function carrying `attr lemmas`), then available as axioms
+	FoldAlias [][2]string // (alias, base): clauses mentioning base's accessors are duplicated for alias
 	SyncCalls []SyncCall
 	Consts  map[string]string // const-global name -> mode
 	Errors  []string
@@ -495,7 +498,7 @@ func (ss *SpecSet) LoadSpecFile(path, pkgPath string, assumed bool) error {
 				fail(i, "%v", err)
 				continue
 			}
-			ss.Axioms = append(ss.Axioms, AxiomDecl{Name: label, E: e, Src: src})
+			ss.Axioms = append(ss.Axioms, AxiomDecl{Name: label, E: e, Src: src, Pkg: pkgPath})
 		case "shared":
 			// shared T.f guarded_by <cond over x for write> [reads <cond>] | shared T.f atomic | shared T.f immutable
 			parts := strings.SplitN(rest, " ", 3)
@@ -550,6 +553,21 @@ func (ss *SpecSet) LoadSpecFile(path, pkgPath string, assumed bool) error {
 				continue
 			}
 			ss.RunLemmas = append(ss.RunLemmas, RunLemma{Fold: parts[0], Name: parts[1], Q: parts[2], P: parts[3]})
+		case "lemma":
+			label, src := splitLabel(rest)
+			e, err := ParseExpr(src)
+			if err != nil {
+				fail(i, "%v", err)
+				continue
+			}
+			ss.Lemmas = append(ss.Lemmas, AxiomDecl{Name: label, E: e, Src: src, Pkg: pkgPath})
+		case "foldalias":
+			parts := strings.Fields(rest)
+			if len(parts) != 2 {
+				fail(i, "foldalias alias base")
+				continue
+			}
+			ss.FoldAlias = append(ss.FoldAlias, [2]string{parts[0], parts[1]})
 		case "foldlink":
 			parts := strings.Fields(rest)
 			if len(parts) != 2 {
@@ -629,7 +647,66 @@ func (ss *SpecSet) LoadSpecFile(path, pkgPath string, assumed bool) error {
 			fail(i, "unknown directive %q", kw)
 		}
 	}
+	ss.applyFoldAliases(path)
 	return nil
+}
+
+// applyFoldAliases duplicates every clause of the file's function contracts that mentions a base fold's accessors,
+// with the alias fold substituted (contracts are polymorphic in folds that share step functions; all fold clauses
+// are conditional on that fold's own pre-state, so the copies are harmless where the alias is meaningless).
+func (ss *SpecSet) applyFoldAliases(file string) {
+	for _, al := range ss.FoldAlias {
+		alias, base := al[0], al[1]
+		sub := func(src string) (string, bool) {
+			if !strings.Contains(src, base+"K(") && !strings.Contains(src, base+"D(") && !strings.Contains(src, base+"_run") {
+				return src, false
+			}
+			r := strings.NewReplacer(base+"K(", alias+"K(", base+"D(", alias+"D(", base+"_run", alias+"_run")
+			return r.Replace(src), true
+		}
+		dup := func(cs []Clause) []Clause {
+			out := cs
+			for _, c := range cs {
+				if strings.HasSuffix(c.Label, "."+alias) || c.File != file {
+					continue
+				}
+				ns, ok := sub(c.Src)
+				if !ok {
+					continue
+				}
+				e, err := ParseExpr(ns)
+				if err != nil {
+					ss.Errors = append(ss.Errors, fmt.Sprintf("%s: foldalias: %v", file, err))
+					continue
+				}
+				lab := c.Label
+				if lab == "" {
+					lab = "c"
+				}
+				already := false
+				for _, o := range out {
+					if o.Src == ns {
+						already = true
+					}
+				}
+				if !already {
+					out = append(out, Clause{Label: lab + "." + alias, Src: ns, E: e, File: c.File, Line: c.Line})
+				}
+			}
+			return out
+		}
+		for _, fs := range ss.Funcs {
+			if fs.File != file || fs.Attrs["foldpoly"] == "" {
+				continue
+			}
+			fs.Requires = dup(fs.Requires)
+			fs.Ensures = dup(fs.Ensures)
+			fs.FnInvs = dup(fs.FnInvs)
+			for _, l := range fs.Loops {
+				l.Invs = dup(l.Invs)
+			}
+		}
+	}
 }
 
 func matchParen(s string, open int) int {
